@@ -445,7 +445,10 @@ API["Epoch.Epoch.get_full_date:utc"].qual = "Epoch.Epoch.get_full_date"
 add("Epoch.Epoch.dow", BOOL, self_st=SELF_EPOCH, opt=1)
 add("Epoch.Epoch.apparent_sidereal_time", st.one_of(A(22.0, 25.0), F(22.0, 25.0)),
     st.one_of(F(-20, 20), I(-20, 20), st.floats(-0.006, 0.006).map(lambda x: {"$A": x})), self_st=SELF_EPOCH)
-add("Epoch.Epoch.rise_set", A(-66.0, 66.0), A(-180.0, 180.0),
+# |latitude| <= 60: closer to the polar circles the Sun may really not rise/set at the standard
+# altitude (refraction + dip of an elevated observer), which rise_set reports as ValueError; that
+# physical criterion is C14's subject
+add("Epoch.Epoch.rise_set", A(-60.0, 60.0), A(-180.0, 180.0),
     st.one_of(F(0, 5000), I(0, 5000)), self_st=st.floats(2415021.0, 2488069.0).map(lambda j: {"$o": "Epoch", "a": [j]}), opt=1)
 DAYS = st.one_of(F(-1e5, 1e5), I(-10 ** 5, 10 ** 5))
 for op in ("add", "radd", "iadd", "isub"):
